@@ -6,7 +6,7 @@
    is_alpha / is_alnum (Rust's char::is_alphabetic / is_alphanumeric), except where [class_ok] is assumed. *)
 From Coq Require Import List NArith Bool.
 From PV Require Import Lib.ListX Model.Lexer Model.LexerGen Model.LexerExec Proofs.LexProofs Proofs.LexTile
-  Proofs.LexRelexDefs Proofs.LexRelex Proofs.LexExecOk Model.LexerInterp Proofs.LexInterp.
+  Proofs.LexRelexDefs Proofs.LexRelex Proofs.LexExecOk Model.LexerInterp Proofs.LexInterp Proofs.LexForward.
 Import ListNotations.
 Local Open Scope N_scope.
 
@@ -184,5 +184,80 @@ Example c17_interp_example :
   = Some [ {| ikind := IString [97]; istart := 0; iend := 1 |};
            {| ikind := IExpr [[98]; [99]] 2 5 (Some [62; 53]); istart := 1; iend := 9 |};
            {| ikind := IString [100; 123; 101; 125]; istart := 9; iend := 15 |} ].
+Proof. vm_compute. reflexivity. Qed.
+
+(* ---------------------------------------------------------------------------------------------------------------
+   FORWARD lexing (Proofs/LexForward.v): "this text lexes to this token", the direction a printer needs.
+   [lexes_as ia ian T x k]: the text x is non-empty, does not start with a space or tab, and for EVERY continuation [rest] that is
+   empty or starts with a space, `x ++ rest` does not start a range and token() returns (k, rest).
+   [join_sp xs] writes the texts with ONE space between consecutive ones; [spans_from 0 xs ks] are the tokens of kinds ks with the
+   byte spans of the texts in that rendering. *)
+
+(* table obligation for the forward lemmas: a space ends an expression; no operator contains a space, starts with white space or
+   with '.'; no control character is white space; among keywords and true / false / null none is a proper prefix of another *)
+Theorem c17_forward_tables_ok : forward_tables_ok T = true.
+Proof. vm_compute. reflexivity. Qed.
+Print Assumptions c17_forward_tables_ok.
+
+(* composition, full strength: token texts that each lex as their kind, rendered with single spaces, lex back to exactly that
+   token list (kinds, payloads and spans), provided no kind is a non-finite number literal *)
+Theorem c17_render_lex_roundtrip : forall ia ian xs ks,
+  Forall2 (lexes_as ia ian T) xs ks -> forallb kind_finite ks = true ->
+  lex ia ian T (join_sp xs) = Some (start_token :: spans_from 0 xs ks).
+Proof. exact (fun ia ian => render_lex ia ian T c17_tables_wf). Qed.
+Print Assumptions c17_render_lex_roundtrip.
+
+(* the token classes a printer emits, each with its precise side condition ([class_ok] only where the class functions matter:
+   identifiers and parameters) *)
+Theorem c17_ident_lexes : forall ia ian, class_ok ia ian -> forall w,
+  plain_ident ia ian w -> ~ kwlike T w -> lexes_as ia ian T w (KIdent w).
+Proof. exact (fun ia ian CK => ident_lexes ia ian T CK c17_relex_tables_ok). Qed.
+Print Assumptions c17_ident_lexes.
+
+Theorem c17_keyword_lexes : forall ia ian k, In k (t_keywords T) -> lexes_as ia ian T k (KKeyword k).
+Proof. exact (fun ia ian => keyword_lexes ia ian T c17_relex_tables_ok c17_forward_tables_ok). Qed.
+Print Assumptions c17_keyword_lexes.
+
+Theorem c17_word_lexes : forall ia ian w, In w (words T) -> lexes_as ia ian T w (KLiteral (word_lit T w)).
+Proof. exact (fun ia ian => word_lexes ia ian T c17_relex_tables_ok c17_forward_tables_ok). Qed.
+Print Assumptions c17_word_lexes.
+
+(* digit text without a leading zero whose value fits an i64 *)
+Theorem c17_int_lexes : forall ia ian ds, int_text ds -> lexes_as ia ian T ds (KLiteral (LInt (dec_val ds))).
+Proof. exact (fun ia ian => int_lexes ia ian T c17_relex_tables_ok). Qed.
+Print Assumptions c17_int_lexes.
+
+Theorem c17_control_lexes : forall ia ian (c : N), c_in c (t_controls T) = true -> lexes_as ia ian T [c] (KControl c).
+Proof. exact (fun ia ian => control_lexes ia ian T c17_relex_tables_ok c17_forward_tables_ok). Qed.
+Print Assumptions c17_control_lexes.
+
+Theorem c17_op_lexes : forall ia ian (a b : N) name ne,
+  In ([a; b], (name, ne)) (t_ops T) -> lexes_as ia ian T [a; b] (KOp name).
+Proof. exact (fun ia ian => op_lexes ia ian T c17_relex_tables_ok c17_forward_tables_ok). Qed.
+Print Assumptions c17_op_lexes.
+
+(* a double-quoted string whose content has no double quote and no backslash (any other character, newlines included) *)
+Theorem c17_string_lexes : forall ia ian body, plain_body body ->
+  lexes_as ia ian T (34 :: body ++ [34]) (KLiteral (LString body)).
+Proof. exact (fun ia ian => string_lexes ia ian T c17_relex_tables_ok). Qed.
+Print Assumptions c17_string_lexes.
+
+Theorem c17_param_lexes : forall ia ian, class_ok ia ian -> forall s : list N, forallb (is_param_char ian) s = true ->
+  lexes_as ia ian T (36 :: s) (KParam s).
+Proof. exact (fun ia ian CK => param_lexes ia ian T CK c17_relex_tables_ok). Qed.
+Print Assumptions c17_param_lexes.
+
+(* the kinds whose text is a function of the kind: rendering and lexing is the identity on token lists *)
+Theorem c17_render_kinds_roundtrip : forall ia ian, class_ok ia ian -> forall ks, Forall (renderable ia ian T) ks ->
+  exists xs, Forall2 (fun k x => kind_text T k = Some x) ks xs /\
+    lex ia ian T (join_sp xs) = Some (start_token :: spans_from 0 xs ks) /\ map tkind (spans_from 0 xs ks) = ks.
+Proof. exact (fun ia ian CK => render_kinds ia ian T c17_tables_wf CK c17_relex_tables_ok c17_forward_tables_ok). Qed.
+Print Assumptions c17_render_kinds_roundtrip.
+
+(* non-vacuity: `let x = 42 == "s"` *)
+Example c17_forward_example :
+  lex alpha_exec alnum_exec T (join_sp [[108;101;116]; [120]; [61]; [52;50]; [61;61]; [34;115;34]])
+  = Some (start_token :: spans_from 0 [[108;101;116]; [120]; [61]; [52;50]; [61;61]; [34;115;34]]
+            [KKeyword [108;101;116]; KIdent [120]; KControl 61; KLiteral (LInt 42); KOp [69;113]; KLiteral (LString [115])]).
 Proof. vm_compute. reflexivity. Qed.
 
